@@ -397,11 +397,16 @@ Proof.
   destruct (fft_field_spec N0 N1 w scratch H0 H1 Hg Hsc) as (F & sc & E & S1 & S2 & V).
   rewrite E. cbn [rbind fst snd]. eexists; eexists. split; [reflexivity|]. cbn [wshape wlam wpt wz].
   do 4 (split; [reflexivity|]). unfold wfield. cbn [wdata wshape fst snd].
-  destruct (render_spec [mkField (D2 F) 0 0 []] so0 so1) as (o & Eo & T1 & T2 & W); try lia.
-  { intros f [<-|[]]. unfold fgood. cbn [fd]. lia. }
+  destruct (render_spec [mkField (D2 (pad2 F so0 so1)) 0 0 []] so0 so1) as (o & Eo & T1 & T2 & W); try lia.
+  { intros f [<-|[]]. unfold fgood. cbn [fd]. change (nr (pad2 F so0 so1)) with so0. change (nc (pad2 F so0 so1)) with so1. lia. }
   exists o. split; [exact Eo|]. split; [exact T1|]. split; [exact T2|]. rewrite T1, T2.
   intros i j Hi Hj. rewrite W by assumption. rewrite embed_sum_esum. unfold esum. cbn [fold_left].
-  rewrite embed_D2. unfold embedA, inr. rewrite S1, S2.
+  (* the stored field is the crop of the grid to the output shape: same samples, same origin *)
+  rewrite embed_D2. unfold embedA at 1. change (nr (pad2 F so0 so1)) with so0. change (nc (pad2 F so0 so1)) with so1.
+  replace (i - so0 / 2 - 0 + so0 / 2) with i by ring. replace (j - so1 / 2 - 0 + so1 / 2) with j by ring.
+  replace (inr so0 i && inr so1 j) with true by (unfold inr; lia).
+  rewrite pad_origin by lia.
+  unfold embedA, inr. rewrite S1, S2.
   replace ((0 <=? i - so0 / 2 - 0 + N0 / 2) && (i - so0 / 2 - 0 + N0 / 2 <? N0) &&
            ((0 <=? j - so1 / 2 - 0 + N1 / 2) && (j - so1 / 2 - 0 + N1 / 2 <? N1))) with true by lia.
   rewrite V by lia.
